@@ -126,6 +126,7 @@ def run(run_, tier):
     run_.trust("metric object is a contract stub (inverse as an abstract symmetric operator)")
     run_.replay_for("", lambda w: {"script": "c18_costs.py", "args": [json.dumps(w or {})]})
     c09.protocol(run_, it, "C18")
+    c09.aux_chain_universe(run_, it, "C18")
     c09.static_layers(run_, "C18")
     it2 = Interp(run_)
     install_std(it2)
